@@ -599,6 +599,9 @@ impl Check for C08 {
     fn id(&self) -> &'static str {
         "c08"
     }
+    fn risky(&self, _ctx: &Ctx, _idx: u64) -> bool {
+        true
+    }
     fn rule(&self) -> String {
         "program = G_thrift corpus; case = (reader type R, value written under an evolved writer schema): random composition of add-field (any wire type, any unknown id, any position, any nesting level incl. list/set elements and map values), remove-field, retype-field (same id, different wire type; also union variants), reorder, unknown-union-variant, second-union-variant, undeclared enum number. Expected outcome computed by the schema model: Err iff a required field is absent or a union carries no known variant (empty void result = ok) or more than one; otherwise Ok with the projection onto R (unknown ids and mismatched wire types dropped, defaults filled). All four protocols; plus metamorphic check that stripping unknown fields does not change the typed value. distinct = (type, writer value hash)".into()
     }
@@ -708,6 +711,9 @@ fn c13_one(ctx: &Ctx, t: usize, k: u64, frag: &mut Frag) {
 impl Check for C13 {
     fn id(&self) -> &'static str {
         "c13"
+    }
+    fn risky(&self, _ctx: &Ctx, _idx: u64) -> bool {
+        true
     }
     fn rule(&self) -> String {
         "program = G_thrift corpus compiled with keep_unknown_fields; case = (reader type incl. method-argument types, value carrying extra fields of every wire type with ids unknown to the reader: before/between/after known fields, inside nested structs, list/set elements, map values, union-typed fields; every 4th case carries NO unknown field). Oracle: decode with the checked and the unchecked binary reader, re-encode with both writers, reference-decode: equal, as an id-keyed tree, to the original with the reader's defaults filled in and every unknown field verbatim. distinct = (type, writer value hash)".into()
@@ -913,6 +919,9 @@ impl Check for C09 {
     fn id(&self) -> &'static str {
         "c09"
     }
+    fn risky(&self, _ctx: &Ctx, _idx: u64) -> bool {
+        true
+    }
     fn level(&self) -> &'static str {
         "fault_enumeration"
     }
@@ -967,6 +976,9 @@ impl Check for C09 {
 impl Check for C19 {
     fn id(&self) -> &'static str {
         "c19"
+    }
+    fn risky(&self, _ctx: &Ctx, _idx: u64) -> bool {
+        true
     }
     fn level(&self) -> &'static str {
         "fault_enumeration"
@@ -1094,6 +1106,9 @@ fn c11_one(ctx: &Ctx, t: usize, k: u64, frag: &mut Frag) {
 impl Check for C11 {
     fn id(&self) -> &'static str {
         "c11"
+    }
+    fn risky(&self, _ctx: &Ctx, _idx: u64) -> bool {
+        true
     }
     fn rule(&self) -> String {
         "generated half: for every declared/synthesised type and N values (half of them carrying unknown fields that the reader skips or, with keep_unknown_fields, retains): T::decode with the unchecked reader == with the checked reader (typed equality, consumed bytes); T::encode with the unchecked writer into a guarded exact-size window == checked bytes, guards intact, on BytesMut / LinkedBytes zc off / on".into()
